@@ -447,5 +447,10 @@ CHECKS["C05"]["thorough"] += U_EFULLP[1:]
 CHECKS["C13"]["bounds"] += "; (f) the effect phase while a producer is suspended inside dispatch() holding the sender lock on a full queue"
 CHECKS["C05"]["bounds"] += "; the effect phase against a full queue with a producer blocked in dispatch()"
 
+U_DISP_CAP3 = [_ud("u_dispatch_block_cap3_inherent", "BlockOnFull, capacity 3 (not a power of two), StoreImpl::dispatch")]
+CHECKS["C05"]["quick"] += U_DISP_CAP3
+CHECKS["C02"]["thorough"] += U_DISP_CAP3
+CHECKS["C05"]["bounds"] += "; full-queue dispatch at capacity 3 (a capacity that is not a power of two)"
+
 HOOK_COMMITS = ['da8b80e', '8cd617e', '39efd23']
 NOT_APPLICABLE = {}
